@@ -225,3 +225,36 @@ pub unsafe extern "C" fn epoll_ctl(epfd: libc::c_int, op: libc::c_int, fd: libc:
   }
   r
 }
+
+// ------------------------------------------------------------------------------------------
+// System-call seam for write(2): the calls a thread makes on a watched descriptor are counted, and
+// the calls numbered n .. n+count-1 can be made to fail — permanently (count = u32::MAX) or only
+// for a while (a queue that is full now and drained a moment later, an interrupted call). Unlike
+// a broken descriptor this lands in the middle of whatever the writer does for one batch.
+thread_local! {
+  /// (fd, calls seen, fail from call number, how many calls fail, errno, a failure happened since last asked)
+  static WATCHW: Cell<[(i32, u32, u32, u32, i32, bool); SLOTS]> = const { Cell::new([(-1, 0, u32::MAX, 0, 0, false); SLOTS]) };
+}
+pub fn watch_writes(fd: i32) { let _ = WATCHW.try_with(|c| { let mut a = c.get(); if let Some(i) = a.iter().position(|e| e.0 == fd).or_else(|| a.iter().position(|e| e.0 < 0)) { a[i] = (fd, 0, u32::MAX, 0, 0, false); } c.set(a); }); }
+pub fn unwatch_writes(fd: i32) { let _ = WATCHW.try_with(|c| { let mut a = c.get(); for e in a.iter_mut() { if e.0 == fd { *e = (-1, 0, u32::MAX, 0, 0, false); } } c.set(a); }); }
+pub fn writes_seen(fd: i32) -> u32 { WATCHW.try_with(|c| c.get().iter().find(|e| e.0 == fd).map(|e| e.1).unwrap_or(0)).unwrap_or(0) }
+pub fn fail_writes(fd: i32, from: u32, count: u32, errno: i32) { let _ = WATCHW.try_with(|c| { let mut a = c.get(); for e in a.iter_mut() { if e.0 == fd { e.2 = from; e.3 = count; e.4 = errno; } } c.set(a); }); }
+/// did a write on `fd` fail since this was last asked?
+pub fn take_write_failed(fd: i32) -> bool { WATCHW.try_with(|c| { let mut a = c.get(); let mut f = false; for e in a.iter_mut() { if e.0 == fd && e.5 { f = true; e.5 = false; } } c.set(a); f }).unwrap_or(false) }
+
+#[no_mangle]
+pub unsafe extern "C" fn write(fd: libc::c_int, buf: *const libc::c_void, count: libc::size_t) -> libc::ssize_t {
+  if fd > 2 {
+    if let Ok(mut w) = WATCHW.try_with(|c| c.get()) {
+      if let Some(i) = w.iter().position(|e| e.0 == fd) {
+        let call = w[i].1; w[i].1 = call.saturating_add(1);
+        let fail = call >= w[i].2 && (call - w[i].2) < w[i].3;
+        if fail { w[i].5 = true; }
+        let errno = w[i].4;
+        let _ = WATCHW.try_with(|c| c.set(w));
+        if fail { *libc::__errno_location() = errno; return -1; }
+      }
+    }
+  }
+  libc::syscall(libc::SYS_write, fd, buf, count) as libc::ssize_t
+}
